@@ -104,3 +104,10 @@ func triageOne(which string, p *gen.Program, lay gen.Layout) (string, error) {
 }
 
 var triageFns = map[string]func(p *gen.Program, r gen.Rendered) error{}
+
+func init() {
+	triageFns["C04"] = func(p *gen.Program, r gen.Rendered) error {
+		_, err := checkC04(c04Case{Src: r.Src})
+		return err
+	}
+}
